@@ -42,7 +42,7 @@ def run(ctx):
                 pass
         diff = o - t
         dd = tod(o) - tod(t)
-        ok = ok and (_dt.timedelta.__eq__(diff, _dt.timedelta(microseconds=dd))) and t.diff(o, False).total_seconds() * 10 ** 6 == dd
+        ok = ok and (_dt.timedelta.__eq__(diff, _dt.timedelta(microseconds=dd))) and round(t.diff(o, False).total_seconds() * 10 ** 6) == dd
         ok = ok and round(t.diff(o).total_seconds() * 10 ** 6) == abs(dd)
         d1, d2 = abs(tod(o) - tod(t)), abs(tod(p) - tod(t))
         c, f = t.closest(o, p), t.farthest(o, p)
